@@ -54,13 +54,13 @@ def scan_assumptions(text):
     return out
 
 
-def run_unit(unit, repo=None, rlimit=None, extra_args=()):
+def _run_unit_once(unit, demote=(), rlimit=None, extra_args=()):
     """assemble + verify one unit.  Never raises: problems become status 'undecided'."""
     res = UnitResult(unit)
     t0 = time.time()
     os.makedirs(GEN, exist_ok=True)
     try:
-        text, metas = assemble(os.path.join(ROOT, 'units', unit + '.rs'))
+        text, metas = assemble(os.path.join(ROOT, 'units', unit + '.rs'), demote=demote)
     except AssembleError as e:
         res.status = 'undecided'; res.reason = 'extraction: %s' % e
         res.wall_s = time.time() - t0
@@ -155,6 +155,15 @@ def run_unit(unit, repo=None, rlimit=None, extra_args=()):
         else:
             r['success'] = False
     if out is None or compile_errors or (out and out.get('verification-results', {}).get('encountered-vir-error')):
+        # which extracted function do the front-end errors point into?
+        res.compile_error_fns = []
+        for d in diags:
+            if d.get('level') != 'error':
+                continue
+            for sp in d.get('spans', []):
+                o = owner_of(sp.get('line_start', 0))
+                if o is not None and o['name'] not in res.compile_error_fns:
+                    res.compile_error_fns.append(o['name'])
         res.status = 'undecided'
         res.reason = 'verus front end rejected the unit (unsupported construct / type error): ' + \
                      (compile_errors[0][:1500] if compile_errors else p.stderr[-1500:])
@@ -208,4 +217,26 @@ def run_unit(unit, repo=None, rlimit=None, extra_args=()):
         os.remove(gen)
     except OSError:
         pass
+    return res
+
+
+def run_unit(unit, repo=None, rlimit=None, extra_args=()):
+    """assemble + verify one unit.  If the front end rejects the unit because the overlay of some
+    function no longer fits its (changed) text, that function is demoted to its assumed rendering
+    (reported as undecided) and the rest of the unit is still decided."""
+    demote = []
+    for _round in range(5):
+        res = _run_unit_once(unit, demote=tuple(demote), rlimit=rlimit, extra_args=extra_args)
+        bad = getattr(res, 'compile_error_fns', [])
+        new = [b for b in bad if b not in demote]
+        if res.status == 'ok' or not new:
+            break
+        demote += new
+    res.demoted = list(demote)
+    if demote and res.status == 'ok':
+        for m in res.metas:
+            if m.get('demoted'):
+                res.fn_results[m['name']] = dict(success=True, undecided=True, time_ms=None, rlimit=None,
+                                                 errors=[dict(message='overlay no longer fits this function (front end rejected it); not decided', rendered='', where=[])])
+                m['mode'] = 'verified'   # still an obligation of the property, but undecided
     return res
